@@ -434,7 +434,7 @@ func TestC15(t *testing.T) {
 	wr.Rule = "a real Syncer (real Store with heads 1..S, scripted Getter) receives a candidate at distance D -- through the captured subscriber verifier, or as the (candidate, soft VerifyError) answer of the head request made by Syncer.Head() -- under a " +
 		"type-level trust policy (adjacent: hash link; non-adjacent: gap <= trustRange or a modular predicate; forged ids never trusted non-adjacently); " +
 		"valid / forged / malformed candidates; getter failing from request k on; getter answers replaced by wrong-height, nil, wrong-chain, " +
-		"future, unordered or forked headers at a requested height; distinct by (D, trust policy, candidate kind, fault); non-trivial when bifurcation ran"
+		"future, unordered or forked headers at a requested height; a getter answering every request with one far-away header (the F30 witness; the request budget turns a spin into an over-long request log); distinct by (D, trust policy, candidate kind, fault); non-trivial when bifurcation ran"
 	reg := vhdr.NewRegistry()
 	const chainLen = 420
 	synctest.Test(t, func(t *testing.T) {
@@ -732,6 +732,26 @@ func TestC15(t *testing.T) {
 				emitCase(sc, w.run(sc))
 				headPath(sc)
 			}
+		}
+		// finding F30 (fixed by the height check in verifyBifurcating): a getter that answers EVERY request with
+		// the same far-away header of the chain (rejected softly each time: not trusted at that distance). The
+		// unfixed loop halves diff down to 0 and then asks for the subjective head's own height for ever; here the
+		// getter fails after Budget requests, so the spin shows as a request log longer than the proved bound
+		// instead of a hang. With the check the first answer (not of the asked height) ends the search: one request.
+		// The first case is the witness of Props/C15.v C15_ex_wrong_height_getter_refused (subj 10, candidate 30,
+		// trust range 3), delivered on both paths.
+		for _, sp := range []struct{ S, D, far, tr uint64 }{{10, 20, 400, 3}, {3, 2, 9, 1}, {5, 7, 100, 2}, {4, 64, 70, 1}, {2, 300, 419, 8}, {7, 33, 3, 4}, {6, 16, 6, 2}} {
+			n := sp.S + sp.D
+			sc := &scen{S: sp.S, Pol: polSpec{Range: sp.tr}, New: chain[n], Over: map[uint64]resp{}, Budget: bound(sp.D) + 40,
+				Kind: "wrong_height_everywhere", Class: fmt.Sprintf("spin/S%d/D%d/far%d", sp.S, sp.D, sp.far)}
+			for d := sp.D; ; d /= 2 {
+				sc.Over[sp.S+d/2] = resp{h: chain[sp.far]}
+				if d == 0 {
+					break
+				}
+			}
+			emitCase(sc, w.run(sc))
+			headPath(sc)
 		}
 		// several deliveries to ONE Syncer, the getter's fault script changing in between: each delivery must be
 		// judged on its own (against the subjective head the earlier ones left) -- the Syncer keeps no memory of
